@@ -137,6 +137,16 @@ def signalFn (fn : String) (a : Array Float) : Except String Float :=
   | "molli_da" => pure (molli_da (g 0) (g 1) (g 2) (g 3))
   | "molli_dc" => pure (molli_dc (g 0) (g 1) (g 2) (g 3))
   | "molli_dt1" => pure (molli_dt1 (g 0) (g 1) (g 2) (g 3))
+  | "tss_dm0" => pure (tss_dm0 (g 0) (g 1) (g 2) (g 3) (g 4) (g 5) (g 6))
+  | "tss_dt1" => pure (tss_dt1 (g 0) (g 1) (g 2) (g 3) (g 4) (g 5) (g 6))
+  | "tss_dalpha" => pure (tss_dalpha (g 0) (g 1) (g 2) (g 3) (g 4) (g 5) (g 6))
+  | "wasabi_db0" => pure (wasabi_db0 (g 0) (g 1) (g 2) (g 3) (g 4) (g 5) (g 6) (g 7))
+  | "wasabi_drb1" => pure (wasabi_drb1 (g 0) (g 1) (g 2) (g 3) (g 4) (g 5) (g 6) (g 7))
+  | "wasabi_dc" => pure (wasabi_dc (g 0) (g 1) (g 2) (g 3) (g 4) (g 5) (g 6) (g 7))
+  | "wasabi_dd" => pure (wasabi_dd (g 0) (g 1) (g 2) (g 3) (g 4) (g 5) (g 6) (g 7))
+  | "wasabiti_db0" => pure (wasabiti_db0 (g 0) (g 1) (g 2) (g 3) (g 4) (g 5) (g 6) (g 7))
+  | "wasabiti_drb1" => pure (wasabiti_drb1 (g 0) (g 1) (g 2) (g 3) (g 4) (g 5) (g 6) (g 7))
+  | "wasabiti_dt1" => pure (wasabiti_dt1 (g 0) (g 1) (g 2) (g 3) (g 4) (g 5) (g 6) (g 7))
   | _ => throw s!"signal fn {fn}"
 
 def qOf (l : List Float) : Q Float := ⟨l.getD 0 0, l.getD 1 0, l.getD 2 0, l.getD 3 0⟩
